@@ -165,7 +165,7 @@ def guard_hygiene(res):
     # whose only members are verif_* functions - nothing of the library proper. And the other way round: nothing that
     # mentions the hook module or a verif_* function may exist outside such a guarded construct
     import re
-    allowed_stmt = re.compile(r"^(crate::verif::point\(\d+\);|crate::verif::record_drop\(crate::verif::KIND_[A-Z_]+, &self\.0\);|pub mod verif;)$")
+    allowed_stmt = re.compile(r"^(crate::verif::point\(\d+\);|crate::verif::record_drop\(crate::verif::KIND_[A-Z_]+, [^;{}]*\);|pub mod verif;)$")
     misuse = []
     for dp, _, fs in os.walk(os.path.join(REPO, "src")):
         for f in fs:
